@@ -393,6 +393,30 @@ for _nm, _head in (("assoc", "[[0, 1], "), ("mixed", "[0, [1], "), ("three", "[[
          construct="join")
 
 
+# depth added by GRAFTING: a template of `t` levels whose innermost element is an array is copied and the value
+# built so far is stored over that innermost array by one index assignment with t-1 subscripts — each round adds
+# t-1 levels through `assign_index` alone (seed C08-e1: the nesting check skipped when the overwritten element is
+# already an array); also through `push` onto the innermost array and through a function that does the store
+def _graft(n, tail, t=200, how="assign"):
+    idx = "[0]" * (t - 2)   # reaches the innermost ARRAY of the template (depth t-1)
+    store = {"assign": f"    g{idx} get acc\n",
+             "push": f"    g{idx}.pop()\n    g{idx}.push(acc)\n",
+             "fn": "    g get put(g, acc)\n"}[how]
+    pre = ""
+    if how == "fn":
+        pre = f"do put(g, v) start\n    g{idx} get v\n    return g\nend\n"
+    rounds = max(1, n // (t - 2))
+    return (pre + "make tpl get [0]\nmake k get 0\n"
+            f"jasi (k small pass {t - 2}) start\n    tpl get [tpl]\n    k get k add 1\nend\n"
+            "make acc get tpl\nmake r get 0\n"
+            f"jasi (r small pass {rounds}) start\n    make g get tpl\n{store}    acc get g\n    r get r add 1\nend\n" + tail)
+
+
+for _how in ("assign", "push", "fn"):
+    data("graft_" + _how, lambda n, chunk=500, h=_how: _graft(n, "shout(acc.len())\n", how=h), construct="copy")
+    data("graft_" + _how + "_shout", lambda n, chunk=500, h=_how: _graft(n, "shout(acc)\n", how=h), construct="display")
+
+
 # ------------------------------------------------------------------------------------------------
 # composite shapes: recursion THEN tower
 #
